@@ -55,6 +55,12 @@ CHECKS = {
             "unit-level images must be a sub-view of the document iterator and coincide for page/slide/sheet formats.",
             "Same generators as C02; vlib/gen/images.py writes valid minimal raster containers.",
             "DESIGN.md §8 C14"),
+    "C17": ("exploration",
+            "grammar-generated HTML bodies with unique visible/hidden tokens through four carriers (html, mhtml, epub chapter, MSG html-to-text helper) in sandboxed workers; token oracle",
+            "A grammar of visible blocks interleaved with removable elements (script/style/noscript/iframe/object/embed/applet, comments) whose content ranges over text, void tags, self-closing forms, "
+            "nested removable elements, unbalanced end tags and CDATA; hidden tokens must never appear, visible tokens before/after must all survive. Constructs whose inside/outside is debatable are kept out of the judged set.",
+            "The MSG path is exercised through the HTML-to-text helper directly (no synthetic .msg container).",
+            "DESIGN.md §8 C17"),
     "C20": ("exploration",
             "icontract post-conditions on the real AES mode functions vs an independent FIPS-197 reference; finite tables enumerated",
             "Every call of the real aes_ecb/cbc_encrypt/decrypt (direct, through pypdf's patched bindings and CryptAES) is compared by a "
